@@ -1,13 +1,15 @@
 # C12 - `meson test` runs each test once, isolates serial tests and reports truthfully.
 #
 # Part 1 (deciding, exhaustive; level model_checking).  The REAL mesonbuild.mtest.TestHarness(options).doit() ->
-# run_tests() -> asyncio.run(_run_tests), with options parsed by mtest.add_arguments, is executed, from a real build directory (`meson setup --backend=none` of a
-# generated project, so a real meson_test_setup.dat), under verif.vloop: a virtual asyncio loop whose fake selector
-# is the choice point, fake subprocesses with real StreamReaders, a stubbed os.killpg.  For every configuration
-# (ordered test set x --num-processes x --repeat x --maxfail) the stateless explorer runs EVERY order of enabled
-# environment events (exit of any running fake process / expiry of the earliest timer) within the deviation bound
-# (quick: 2; thorough: none for n<=4 with --repeat 1 and for n<=2 with --repeat 2, else as listed below).  Replaying a prefix that
-# meets different options is a hard error (exit 2).  Every execution has a horizon (60 environment events).
+# run_tests() -> asyncio.run(_run_tests), with options parsed by mtest.add_arguments, is executed from a real build
+# directory (`meson setup --backend=none` of a generated project, so a real meson_test_setup.dat) under verif.vloop:
+# a virtual asyncio loop whose fake selector is the choice point, fake subprocesses with real StreamReaders, a
+# stubbed os.killpg.  For every configuration (ordered test set x --num-processes x --repeat x --maxfail) the
+# stateless explorer runs EVERY order of enabled environment events (exit of any running fake process / expiry of
+# the earliest timer) within the deviation bound (quick: 2; thorough: none for n<=4 with --repeat 1 and for the
+# non-flaky n<=2 sets with --repeat 2, else as listed below).  Replaying a prefix that meets different options is a
+# hard error (exit 2).  Every execution has a horizon (60 environment events).  Configurations are dealt out
+# simplest first; after 40 new (not known) violations the exploration stops (`exhaustive` is then false).
 #
 #   Test attributes: is_parallel {P,S} x outcome {ok=exit 0, fail=exit 1, skip=77, err=99, sig=killed by SIGSEGV,
 #   hang=never exits => only the timeout ends it} x should_fail {n,x} x protocol {e=exitcode, t=tap with a stream
@@ -26,7 +28,7 @@
 #   EVERY configuration that is explored has ALL its schedules within the stated deviation bound explored.
 #
 #   Oracle per execution, evaluated on the fake-process start/end/signal log and on the harness's own outputs
-#   (stdout summary, meson-logs/testlog.json, return value of mtest.run):
+#   (stdout summary, meson-logs/testlog.json, return value of TestHarness.doit()):
 #     once      each selected (test, iteration) started <= 1 time; == 1 unless the run may be cut short
 #               (--maxfail N>0 and >= N bad results, or --repeat > 1 and >= 1 bad result)
 #     jobs      at every instant #running <= --num-processes
@@ -269,6 +271,8 @@ def configurations(thorough):
                         cfg = {'fam': name, 'tests': tests, 'jobs': jobs, 'repeat': repeat, 'maxfail': maxfail}
                         out.append((cfg, bounds[repeat]))
     out.sort(key=lambda cb: (len(cb[0]['tests']) * cb[0]['repeat'], cb[0]['jobs']))
+    if os.environ.get('C12_STRIDE'):      # debugging aid only (cost estimation)
+        out = out[::int(os.environ['C12_STRIDE'])]
     return out
 
 
@@ -434,7 +438,7 @@ def judge(cfg, log, rc, out, jrecs, err):
             S['timeouts'] += 1
             what = 'limit %ds passed at t=%s, then signalled' % (limit, r['sigs'][0][0])
         elif r['sigs']:
-            exp = {'INTERRUPT'}
+            exp = None          # unspecified corner: classification of a run the harness itself interrupted
             interrupted.append(key)
             what = 'signalled by the harness before its limit'
         else:
@@ -446,8 +450,8 @@ def judge(cfg, log, rc, out, jrecs, err):
             S['loose_cells'] += 1
         if obs is not None:
             classes.add((t[2], t[1], outcome if not r['sigs'] else 'signalled', obs))
-            if obs not in exp:
-                V.append(('C12:class:%s%s:%s:%s-as-%s' % (t[2], t[1], 'sig@limit' if exp == {'TIMEOUT'} else 'sig<limit' if exp == {'INTERRUPT'} else 'rc%s' % r['rc'],
+            if exp is not None and obs not in exp:
+                V.append(('C12:class:%s%s:%s:%s-as-%s' % (t[2], t[1], 'sig@limit' if exp == {'TIMEOUT'} else 'rc%s' % r['rc'],
                                                            '|'.join(sorted(exp)), obs),
                           '%s (%s, protocol %s, should_fail %s, stream %s): expected %s, testlog.json says %s'
                           % (key, what, t[2], t[1], t[4], sorted(exp), obs)))
@@ -470,7 +474,7 @@ def judge(cfg, log, rc, out, jrecs, err):
         S['cut_maxfail' if maxfail else 'cut_repeat'] = 1
     if not err:
         printed, dup = parse_totals(out)
-        check_totals_exit(V, tally, tally.get('INTERRUPT', 0), printed, dup, rc, bool(sel))
+        check_totals_exit(V, tally, sum(1 for k in interrupted if observed.get(k) not in ('FAIL', 'ERROR')), printed, dup, rc, bool(sel))
     S['runs'] = len(runs)
     return V, S, classes
 
@@ -758,7 +762,7 @@ P2_OUT = {'ok': (0, False), 'fail': (1, False), 'skip': (77, False), 'err': (99,
 P2_TM = 0.1     # --timeout-multiplier: limits 3, 2, 4, 1, 2.5 s
 
 
-def p2_cases(thorough):
+def p2_cases(thorough, seed=0):
     P, S = 'P', 'S'
     base = [
         ([mk(P, 'n', 'e', 'ok'), mk(P, 'n', 'e', 'fail'), mk(S, 'n', 'e', 'ok'), mk(P, 'n', 'e', 'ok')], 2, 1, 0),
@@ -774,8 +778,9 @@ def p2_cases(thorough):
     out = []
     for tests, jobs, repeat, maxfail in base:
         n = len(tests)
-        pats = list(itertools.permutations(durs[:n])) if thorough else \
-            [durs[:n], durs[:n][::-1], (durs[:n] * 2)[1:n + 1]]
+        perms = list(itertools.permutations(durs[:n]))
+        # quick: 3 of the n! duration patterns; VERIF_SEED only rotates which ones (no verdict depends on it)
+        pats = perms if thorough else [perms[(seed * 3 + i * 7) % len(perms)] for i in range(3)]
         for pat in pats:
             out.append({'tests': tests, 'jobs': jobs, 'repeat': repeat, 'maxfail': maxfail, 'sleeps': list(pat)})
     return out
@@ -814,6 +819,8 @@ def run_real(case):
     except OSError:
         pass
     shutil.rmtree(wd, ignore_errors=True)
+    if r.signaled:      # our own 120 s guard killed `meson test` (machine hopelessly overloaded): no verdict from this run
+        return {'viol': [], 'stats': {'aborted_runs': 1}, 'wall': r.wall, 'sample': None}
     V, S = judge_real(case, events, r.rc, r.out, jrecs)
     return {'viol': [(k, w, {'part2': case}) for k, w in V], 'stats': dict(S), 'wall': r.wall,
             'sample': {'argv': argv[3:], 'events': [(e[0], e[1]) for e in sorted(events, key=lambda e: e[2])], 'exit': r.rc, 'totals': parse_totals(r.out)[0]}}
@@ -846,8 +853,6 @@ def judge_real(case, events, rc, out, jrecs):
         for k2, (c, d) in closed.items():
             if k2 != k and c < b and d > a:
                 V.append(('C12:p2:serial:overlap', 'non-parallel %s reported [%f,%f] overlapping %s [%f,%f]' % (k, a, b, k2, c, d)))
-            if k2 != k and not (d <= a or c >= b):
-                pass
         S['serial_runs'] += 1
     pts = sorted([(a, 1) for a, b in closed.values() if b > a] + [(b, -1) for a, b in closed.values() if b > a], key=lambda x: (x[0], x[1]))
     cur = mx = 0
@@ -873,9 +878,8 @@ def judge_real(case, events, rc, out, jrecs):
     for k in sel:
         if starts[k] > 1:
             V.append(('C12:p2:once:twice', '%s reported %d starts' % (k, starts[k])))
-        if starts[k] == 0 and k in observed and observed[k] not in ('TIMEOUT', 'INTERRUPT'):
-            # the harness reports a result other than a kill for a program that never reported its start
-            V.append(('C12:p2:class:result-without-start', '%s: %s' % (k, observed[k])))
+        if starts[k] == 0 and k in observed:
+            S['result_without_reported_start'] += 1     # program killed (or broken) before it could log: nothing to compare
         if starts[k] == 0 and k not in observed and not cut_ok:
             V.append(('C12:p2:once:never', '%s never started, results %r' % (k, dict(tally))))
         if starts[k] == 0 and cut_ok:
@@ -896,10 +900,11 @@ def judge_real(case, events, rc, out, jrecs):
         if obs == 'TIMEOUT' and durations.get(key, 0) >= 0.95 * limit:
             S['timeouts'] += 1     # truthful whatever the program did: the limit did pass
             continue
+        if obs == 'INTERRUPT' and cut_ok:
+            # the harness cut the run short; it may have signalled the program after it had logged its end (race): unspecified
+            S['interrupted_runs'] += 1
+            continue
         if how == 'term':
-            if obs == 'INTERRUPT' and cut_ok:
-                S['interrupted_runs'] += 1
-                continue
             V.append(('C12:p2:class:term-as-%s' % obs, '%s was terminated by the harness after %.2fs (limit %.2f) and is reported %s' % (key, durations.get(key, 0), limit, obs)))
             continue
         exp, loose = allowed_results(t[1], t[2], how, t[4])
@@ -1035,7 +1040,7 @@ def main():
             exhaustive = False
         ck.part('part1', **{k: tot[k] for k in sorted(tot)})
         ck.part('part1_families', **{f: dict(c) for f, c in perfam.items()})
-        if not stopped_early and not os.environ.get('C12_FAMS'):     # coverage requirements are meaningless for an aborted exploration
+        if not stopped_early and not os.environ.get('C12_FAMS') and not os.environ.get('C12_STRIDE'):     # coverage requirements are meaningless for an aborted exploration
             ck.require(tot['serial_waited_for_parallel'] > 0, 'no execution in which a serial test had to wait for running parallel tests')
             ck.require(tot['serial_ran_with_pending_launches'] > 0, 'no execution in which a serial test overlapped with the launch loop')
             ck.require(tot['exec_with_timeout'] > 0, 'no execution in which a timeout fired')
@@ -1047,7 +1052,7 @@ def main():
 
     # ---- Part 2 ----
     if ck.want('p2'):
-        cases = p2_cases(thorough)
+        cases = p2_cases(thorough, ck.seed)
         st = collections.Counter()
         pending = []
         first = None
@@ -1073,7 +1078,8 @@ def main():
             if lines != exp:
                 pending.append(('C12:p2:list-differs', 'meson test --list %r printed %r, in-process get_tests gave %r' % (argv, lines, exp), {'list': argv}))
         report(ck, pending)
-        ck.part('part2', **{k: st[k] for k in sorted(st)})
+        stable = ('runs', 'list_runs', 'serial_runs')
+        ck.part('part2', timing_dependent={k: st[k] for k in sorted(st) if k not in stable}, **{k: st[k] for k in stable})
         if first:
             ck.sample({'part2': first})
         ck.require(st['overlap_seen'] > 0 and st['serial_runs'] > 0 and st['classified'] > 0, 'part 2 exercised nothing')
@@ -1088,7 +1094,8 @@ def main():
               'exit (rc -15) at an explorer-chosen later point, SIGKILL immediately; fake process creation never fails or suspends')
     ck.assume('ERROR and (unspecified) INTERRUPT have no summary line of their own; ERROR is tallied under `Fail:`')
     ck.assume('stdout is not a tty: ConsoleLogger starts no periodic progress timer, so the only timers are test limits and kill grace periods')
-    ck.assume('Part 2 compares intervals reported by the test programs (sub-intervals of the real ones) and durations reported by the harness')
+    ck.assume('Part 2 compares intervals reported by the test programs (sub-intervals of the real ones) and durations reported by the harness; '
+              'its coverage counters (parts.part2.timing_dependent) depend on real scheduling, its verdicts do not')
     ck.finish(states=states, transitions=transitions, traces_validated_against_impl=traces, part2_real_runs=part2_runs,
               distinct_result_classes=len(classes),
               rule='states = distinct (configuration, schedule prefix) points of the exploration tree (+ selection cases); transitions = environment '
